@@ -99,9 +99,6 @@ func VC06_SignedUpdateLayout() {
 	_, m, err := SignEFIVariable(v, vPayload(payload), signer, cert)
 	t1 := time.Now().UTC()
 	vsym.Assert(err == nil, "signing succeeds")
-	if !vsym.Symbolic() && t0.Format("060102150405") != t1.Format("060102150405") {
-		return // native replay only: the wall clock crossed a second boundary during the call; nothing to compare
-	}
 	out := m.Bytes()
 	vsym.Assert(len(out) >= 40, "output holds the descriptor header")
 
@@ -127,14 +124,20 @@ func VC06_SignedUpdateLayout() {
 		byte(guid.Data2), byte(guid.Data2 >> 8), byte(guid.Data3), byte(guid.Data3 >> 8)}
 	g = append(g, guid.Data4[:]...)
 	signedBuf := vCat(nameUTF16, g, []byte{byte(attrs), byte(attrs >> 8), byte(attrs >> 16), byte(attrs >> 24)}, ts, payload)
-	sd := vRefDetachedSignedData(signedBuf, raw, issuer, serial, t0, signer)
-
-	// 3. whole layout
+	// 3. whole layout (the signing-time attribute is the clock when signing started; natively the
+	// wall clock may have moved between the harness's reading and the library's: accept either)
 	pk7 := util.EFIGUID{Data1: 0x4aafd29d, Data2: 0x68df, Data3: 0x49ee, Data4: [8]uint8{0x8a, 0xa9, 0x34, 0x7d, 0x37, 0x56, 0x65, 0xa7}}
-	dw := 24 + len(sd)
-	want := vCat(ts, []byte{byte(dw), byte(dw >> 8), byte(dw >> 16), byte(dw >> 24), 0x00, 0x02, 0xf1, 0x0e},
-		[]byte{byte(pk7.Data1), byte(pk7.Data1 >> 8), byte(pk7.Data1 >> 16), byte(pk7.Data1 >> 24), byte(pk7.Data2), byte(pk7.Data2 >> 8), byte(pk7.Data3), byte(pk7.Data3 >> 8)},
-		pk7.Data4[:], sd, payload)
-	vsym.AssertBytesEq(out, want, "update is timestamp || WIN_CERTIFICATE_UEFI_GUID || bare detached SignedData over name||GUID||attrs||timestamp||payload || payload")
+	layout := func(t time.Time) []byte {
+		sd := vRefDetachedSignedData(signedBuf, raw, issuer, serial, t, signer)
+		dw := 24 + len(sd)
+		return vCat(ts, []byte{byte(dw), byte(dw >> 8), byte(dw >> 16), byte(dw >> 24), 0x00, 0x02, 0xf1, 0x0e},
+			[]byte{byte(pk7.Data1), byte(pk7.Data1 >> 8), byte(pk7.Data1 >> 16), byte(pk7.Data1 >> 24), byte(pk7.Data2), byte(pk7.Data2 >> 8), byte(pk7.Data3), byte(pk7.Data3 >> 8)},
+			pk7.Data4[:], sd, payload)
+	}
+	want0 := layout(t0)
+	if !vsym.Symbolic() && !bytes.Equal(out, want0) {
+		want0 = layout(t1)
+	}
+	vsym.AssertBytesEq(out, want0, "update is timestamp || WIN_CERTIFICATE_UEFI_GUID || bare detached SignedData over name||GUID||attrs||timestamp||payload || payload")
 	vsym.Reach("end")
 }
